@@ -1096,7 +1096,9 @@ class Grid(object):
         if align_corners:
             spacing = (self.extent() - self.spacing()) / (size - 1)
             grid._spacing = torch.where(self._size.gt(0), spacing, self._spacing)
-            assert torch.allclose(grid.origin(), self.origin())
+            # tolerance relative to the magnitudes origin() is computed from (float32 attributes)
+            atol = 1e-5 * float(torch.max(self.extent().max(), self._center.abs().max()))
+            assert torch.allclose(grid.origin(), self.origin(), atol=max(atol, 1e-8))
         else:
             spacing = self.extent() / size
             grid._spacing = torch.where(self._size.gt(0), spacing, self._spacing)
